@@ -24,11 +24,17 @@ ASSUMPTIONS = ['extractor contract: get_next_imf without energy threshold return
                'continue flag (checked on every table row)',
                'interp_envelope returns None iff the signal has fewer than two strict interior maxima (upper) / minima (lower) '
                '(stream env_none: real interp_envelope vs the model count (op PEAKS) vs an independent counter)']
-RULE = ('random signals of 9 families (noise, random walk, tones+trend, AM/FM, integer plateaus, constants, ramps, engineered '
-        'few-extrema n=5..16, perfect IMFs) x stop rule {sd, rilling, fixed} x step {1, 1/2, 1/3, 1/4, random} x interpolation '
+RULE = ('random signals of 10 families (noise, random walk, tones+trend, AM/FM, integer plateaus, constants, ramps, engineered '
+        'few-extrema n=5..16, perfect IMFs, long ramps (n=200..2000, corpus 3000) with one short burst near one end: few extrema far '
+        'from the other edge; pure / AM / FM tones in which one IMF dominates its layer) x stop rule {sd, rilling, fixed} x step {1, 1/2, 1/3, 1/4, random} x interpolation '
         '{splrep, pchip, mono_pchip} x pad_width {1,2,3,5}; mostly no cap / default threshold / no energy threshold (the quantifier '
         'of C01), plus cut-short variants (cap, large sift_thresh, energy threshold). Non-trivial: at least two components and a '
-        'natural (flag) exit, or an extraction that lost its extrema after >= 1 mean removals; distinct by content hash.')
+        'natural (flag) exit, or an extraction that lost its extrema after >= 1 mean removals; distinct by content hash. '
+        'A block of cases relies on the built-in option defaults (imf_opts omitted / None / {}: no energy threshold was requested, so none may cut the sift short); '
+        'a block stores the signal as int64 / int16 / uint8 / float32 instead of float64 (case values exactly representable). '
+        'The library is handed fresh writable arrays and every verdict uses the pristine input. Not judged (skipped, tagged): time-outs. '
+        'Mechanism-level (broken correspondence, never a replayable C01 violation): the extractor contract on get_next_imf, cap respect (C03), '
+        'reproduction of a convergence error by the harness peeling, the whole env_none stream (assumption validator).')
 
 IMPL_TIMEOUT = 40
 
@@ -38,11 +44,60 @@ def _cols(arr):
     return [S.fr_list(arr[:, i]) for i in range(arr.shape[1])]
 
 
-def _call_sift(x, o, thr, cap):
+# the documented defaults of sift() / get_next_imf(): what a call that omits imf_opts (or passes None / {}) asks for.  No energy
+# threshold is among them: C01 exempts only an EXPLICITLY requested cut-short
+DEFAULTS = {'stop_method': 'sd', 'sd_thresh': 0.1, 'env_step_size': 1, 'max_iters': 1000, 'interp_method': 'splrep',
+            'pad_width': 2, 'energy_thresh': None}
+STORAGE = ['int64', 'int16', 'uint8', 'float32']      # storage types of the input besides float64
+
+
+def as_stored(x, dtype):
+    """the values of x that are exactly representable in `dtype` (what case['x'] holds for a dtype case)"""
+    a = np.asarray(x, dtype=float)
+    if dtype.startswith('uint'):
+        a = np.round(a) - min(0.0, float(np.min(np.round(a)))) if a.size else a
+        return [float(v) for v in np.clip(a, 0, np.iinfo(dtype).max)]
+    if dtype.startswith('int'):
+        return [float(v) for v in np.clip(np.round(a), np.iinfo(dtype).min, np.iinfo(dtype).max)]
+    return [float(np.dtype(dtype).type(v)) for v in a]
+
+
+def _call_sift(x, o, thr, cap, call=None, dtype=None):
     """the real sift on a fresh WRITABLE copy (read-only inputs are C19's subject; an implementation may use its argument as
-    scratch space): every verdict compares with the pristine case['x']"""
+    scratch space): every verdict compares with the pristine case['x'].
+    call: None = every option spelled out; 'omit' / 'none' / 'empty' = imf_opts left out / None / {} (the case's options are then
+    the documented DEFAULTS).  dtype: the array type the signal is stored in (its values are case['x'] exactly)."""
     import emd
-    return emd.sift.sift(np.array(x, dtype=float), **S.sift_kwargs(o, thr, cap))
+    X = np.array(x, dtype=float)
+    if dtype not in (None, 'float64'):
+        Xd = X.astype(dtype)
+        if not np.array_equal(Xd.astype(float), X):
+            raise RuntimeError('harness: case values are not representable as %s' % dtype)
+        X = Xd
+    kw = S.sift_kwargs(o, thr, cap)
+    if call:
+        if any(o.get(k) != v for k, v in DEFAULTS.items()):
+            raise RuntimeError('harness: a default-options case must carry the documented defaults')
+        del kw['imf_opts']
+        if call == 'none':
+            kw['imf_opts'] = None
+        elif call == 'empty':
+            kw['imf_opts'] = {}
+        if call == 'omit':
+            kw = {k: v for k, v in kw.items() if k in ('sift_thresh', 'max_imfs') and not (k == 'sift_thresh' and v == 1e-8)}
+    return emd.sift.sift(X, **kw)
+
+
+def dominant_tone(rng, n):
+    """a pure / AM / FM tone (optionally on a faint trend): ONE IMF carries almost all the energy of its layer, so an energy-ratio
+    stop - had anybody asked for one - would fire after the first extraction (round-4 seeded change: the fallback options used when
+    imf_opts is omitted gained energy_thresh=50)"""
+    t = np.arange(n, dtype=float)
+    per = rng.uniform(6.0, 14.0)
+    am = 1 + rng.choice([0.0, 0.3, 0.5]) * np.sin(2 * np.pi * t / n + rng.uniform(0, 6.28))
+    fm = rng.choice([0.0, 0.2, 0.3]) * np.sin(2 * np.pi * t / n)
+    x = am * np.sin(2 * np.pi * (t / per + fm) + rng.uniform(0, 6.28))
+    return x * rng.choice([1.0, 1.0, 0.1, 20.0]) + rng.choice([0.0, 0.0, 0.02]) * t / n
 
 
 def _call_gni(x, o):
@@ -51,22 +106,28 @@ def _call_gni(x, o):
                                  **S.imf_kwargs(o))
 
 
-def _peel(x, o, layers):
+def _peel(x, o, layers, with_paths=True):
     """S.peel (manual peeling with the public get_next_imf, exit path of every layer) with writable inputs"""
     X = np.array(x, dtype=float)[:, None]
     rows = []
     r = X.copy()
     imf = None
     for k in range(layers):
+        path = None
         try:
-            ref = S.reference(r[:, 0].copy(), o, extra=0)
-            e = ref['exit']
-            path = 'truncated' if e is None else '%s@%s' % (e[0], '0' if e[1] == 0 else '>=1')
+            if with_paths:
+                ref = S.reference(r[:, 0].copy(), o, extra=0)
+                e = ref['exit']
+                path = 'truncated' if e is None else '%s@%s' % (e[0], '0' if e[1] == 0 else '>=1')
+        except S.Timeout:
+            raise           # the budget of the whole peeling: no table (skip:peeling-timeout), never a truncated one
         except Exception:  # noqa
             path = 'envelope-raises'
         rin = r[:, 0].copy()
         try:
             c, f = _call_gni(rin, o)
+        except S.Timeout:
+            raise
         except Exception as e:  # noqa
             rows.append((rin, None, False, err_kind(e), path))
             break
@@ -130,6 +191,18 @@ class SiftRun(Stream):
             if stop == 'rilling':
                 o['rilling_thresh'] = [0.05, 0.5, 0.05]
             c.append({'x': S.fr_list(y), 'opts': o, 'thr': 1e-8, 'cap': None, 'family': 'corpus-burst-ramp'})
+        # round-4 seeded changes: (1) imf_opts omitted / None / {} on an AM-FM tone must still be a complete decomposition (nobody
+        # asked for an energy stop); (2) the same integer values stored as int64 / int16 / uint8 (and float32 storage) stay additive
+        n = 400
+        t = np.arange(n)
+        y = (1 + .5 * np.sin(2 * np.pi * t / n)) * np.sin(2 * np.pi * (t / 9. + .3 * np.sin(2 * np.pi * t / n)))
+        for call in ('omit', 'none', 'empty'):
+            c.append({'x': S.fr_list(y), 'opts': dict(DEFAULTS), 'thr': 1e-8, 'cap': None, 'family': 'corpus-default-options', 'call': call})
+        iv = [3, 7, 2, 9, 4, 8, 1, 6, 5, 10, 0, 7, 3, 9, 2, 8, 4, 6, 1, 5, 9, 2, 7, 3]
+        for dt in STORAGE:
+            c.append({'x': as_stored(iv, dt), 'opts': dict(base), 'thr': 1e-8, 'cap': None, 'family': 'corpus-storage', 'dtype': dt})
+        c.append({'x': as_stored([v - 5 for v in iv], 'int16'), 'opts': dict(base, stop_method='fixed', max_iters=3, interp_method='pchip'),
+                  'thr': 1e-8, 'cap': None, 'family': 'corpus-storage', 'dtype': 'int16'})
         return c
 
     def generate(self, rng, tier):
@@ -142,11 +215,43 @@ class SiftRun(Stream):
             o = S.gen_opts(rng, tier, allow_energy=False, family='burstramp')
             o['pad_width'] = rng.choice([1, 1, 2, 3])
             o['env_step_size'] = 1
+            if o['interp_method'] != 'splrep':
+                if rng.random() < 0.5:
+                    o['interp_method'] = 'splrep'
+                else:
+                    n = min(n, 300)     # pchip sifts of long signals keep peeling rounding-level layers (dozens of them): keep them short
             if o['stop_method'] == 'fixed':
                 o['max_iters'] = rng.choice([3, 5, 10])
             else:
                 o['max_iters'] = 50
             yield {'x': S.fr_list(burst_ramp(rng, n)), 'opts': o, 'thr': 1e-8, 'cap': None, 'family': 'burstramp'}
+        for i in range(150 if tier == 'thorough' else 16):
+            # the built-in option defaults (imf_opts omitted / None / {}) on signals in which one IMF dominates its layer
+            n = rng.choice([64, 128, 200, 400])
+            x = dominant_tone(rng, n) if rng.random() < 0.8 else S.gen_signal(rng, rng.choice(['amfm', 'tones', 'noise']), n)
+            yield {'x': S.fr_list(x), 'opts': dict(DEFAULTS), 'thr': 1e-8, 'cap': None, 'family': 'default-options',
+                   'call': rng.choice(['omit', 'none', 'empty'])}
+        for i in range(200 if tier == 'thorough' else 24):
+            # the same real values held in an integer / single-precision array
+            dt = rng.choice(STORAGE)
+            n = rng.choice([12, 16, 24, 32, 48, 64])
+            if dt == 'float32':
+                x = S.gen_signal(rng, rng.choice(['noise', 'walk', 'tones', 'amfm', 'plateau']), n)
+            else:
+                fam = rng.choice(['plateau', 'int-walk', 'int-tones'])
+                if fam == 'plateau':
+                    x = np.round(S.gen_signal(rng, 'plateau', n))
+                elif fam == 'int-walk':
+                    x = np.cumsum([rng.randint(-4, 4) for _ in range(n)])
+                else:
+                    x = np.round(rng.choice([10, 40, 100]) * S.gen_signal(rng, 'tones', n))
+            o = S.gen_opts(rng, tier, allow_energy=False, family='noise')
+            o['env_step_size'] = 1
+            if o['stop_method'] == 'fixed':
+                o['max_iters'] = rng.choice([3, 5, 10])
+            elif o['max_iters'] < 10:
+                o['max_iters'] = 50
+            yield {'x': as_stored(x, dt), 'opts': o, 'thr': 1e-8, 'cap': None, 'family': 'storage', 'dtype': dt}
         ncase = 4000 if tier == 'thorough' else 330
         nmax = 384 if tier == 'thorough' else 64
         for i in range(ncase):
@@ -182,7 +287,7 @@ class SiftRun(Stream):
         out = {}
         try:
             with S.time_limit(IMPL_TIMEOUT):
-                imf = _call_sift(x, o, case['thr'], case['cap'])
+                imf = _call_sift(x, o, case['thr'], case['cap'], call=case.get('call'), dtype=case.get('dtype'))
             imf = np.asarray(imf)
             out['res'] = {'shape': list(imf.shape), 'cols': _cols(imf) if imf.ndim == 2 else []}
             K = imf.shape[1] if imf.ndim == 2 else 0
@@ -303,7 +408,8 @@ class SiftRun(Stream):
         t = ['family=' + case['family'], 'stop=' + o['stop_method'], 'interp=' + o['interp_method'], 'pad=%d' % o['pad_width'],
              'step=%s' % ('1' if o['env_step_size'] == 1 else '<1'),
              'cutshort-config=' + ('cap' if case['cap'] is not None else 'thr' if case['thr'] > 1e-8 else
-                                    'energy' if o.get('energy_thresh') is not None else 'none')]
+                                    'energy' if o.get('energy_thresh') is not None else 'none'),
+             'imf_opts=' + (case.get('call') or 'explicit'), 'dtype=' + (case.get('dtype') or 'float64')]
         if isinstance(out, ImplError):
             return t
         res = out['res']
@@ -342,6 +448,8 @@ class SiftRun(Stream):
             if 0 < cut and n - cut >= 3:
                 yield dict(case, x=x[cut:])
                 yield dict(case, x=x[:n - cut])
+        if case.get('call'):
+            return                  # a default-options case must keep the documented defaults
         if o['interp_method'] != 'splrep':
             yield dict(case, opts=dict(o, interp_method='splrep'))
         if o['pad_width'] != 2:
@@ -349,7 +457,7 @@ class SiftRun(Stream):
         if o['env_step_size'] != 1:
             yield dict(case, opts=dict(o, env_step_size=1))
         r = [round(v, 2) for v in x]
-        if r != x:
+        if r != x and not case.get('dtype'):
             yield dict(case, x=r)
 
 
